@@ -323,6 +323,267 @@ void vf_harness(void)
                            "rp": "_dbin->deleteColumnByUID(_listVariableTempDbOut[i]);", "expect": r"_cleanVariableDb\.(postcondition|loop_invariant)"}])
 
 
+# ------------------------------------------------------------------------------------------------------------------
+# ACalcDbToDb::_expandInformation: variables migrated into dbin for the time of the calculation
+# ------------------------------------------------------------------------------------------------------------------
+def registered_in(L, uid, n="%s.n"):
+    return "(" + " || ".join("(%d < %s && %s.a[%d] == (%s))" % (p, (n % L) if "%s" in n else n, L, p, uid) for p in range(LMAX)) + ")"
+
+
+def unit_expand():
+    """property: whatever the calculation adds to the INPUT data base (external drift / non-stationary parameters migrated from the
+    target grid) is registered as temporary for dbin, so that _postprocess and _rollback (both proved to clean that list) remove it"""
+    pre = D2D_PRE + """
+/* CalcMigrate as seen from here (its own rollback is unit C19.rollback.CalcMigrate): on success it hands out up to LMAX new
+   identifiers of dbin, some of which may already be deleted again (its temporaries); on failure none is left alive */
+int VF_migrateByLocator(void)
+{
+  int k = G_nnew;
+  G_first = DBIN.next_uid;
+  DBIN.next_uid = DBIN.next_uid + k;
+  if (G_fail) { %s return 1; }
+  return 0;
+}
+static bool VF_live(int iuid) { int q = iuid - G_first; if (q < 0 || q >= LMAX) return 0; return G_live[q] ? 1 : 0; }
+void Db_deleteColumnsByLocator(DbH db, int loc) { g_deleted_by_colidx_in++; }
+""" % " ".join("G_live[%d] = 0;" % q for q in range(LMAX))
+    H = "__CPROVER_old"
+    ens = ["__CPROVER_ensures(%s && %s && %s)" % (unchanged("L_PermIn"), unchanged("L_PermOut"), unchanged("L_TempOut")),
+           # what was registered stays registered, in place
+           "__CPROVER_ensures(L_TempIn.n >= %s(L_TempIn.n) && %s)" % (H, " && ".join("(%d >= %s(L_TempIn.n) || L_TempIn.a[%d] == %s(L_TempIn.a[%d]))" % (q, H, q, H, q) for q in range(LMAX)))]
+    for q in range(LMAX):
+        ens.append("__CPROVER_ensures((%s(DBIN.next_uid) + %d < DBIN.next_uid && G_live[%d]) ==> %s)"
+                   % (H, q, q, registered_in("L_TempIn", "%s(DBIN.next_uid) + %d" % (H, q))))
+    ens.append("__CPROVER_ensures(__CPROVER_return_value != 0 ==> %s)" % unchanged("L_TempIn"))
+    ens.append("__CPROVER_ensures(mode <= 0 ==> (DBIN.next_uid == %s(DBIN.next_uid) && %s))" % (H, unchanged("L_TempIn")))
+    contract = "\n".join([WFL, "__CPROVER_requires(0 <= DBIN.next_uid && DBIN.next_uid < 1000 && 0 <= G_nnew && G_nnew <= LMAX && %s)" % " && ".join("%s.n + G_nnew <= LMAX" % L for L in LISTS),
+                          "__CPROVER_assigns(L_PermIn, L_TempIn, L_PermOut, L_TempOut, DBIN.next_uid, G_first, G_live, g_deleted_by_colidx_in)"] + ens)
+    inv = "\n".join(["__CPROVER_assigns(iuid, iuids, iuids_n)",
+                     "__CPROVER_loop_invariant(uidFirst <= iuid && iuid <= nuid && nuid == uidFirst + G_nnew && G_nnew <= LMAX && uidFirst == G_first && nuid == DBIN.next_uid)",
+                     "__CPROVER_loop_invariant(0 <= iuids_n && iuids_n <= iuid - uidFirst)"] +
+                    ["__CPROVER_loop_invariant((uidFirst + %d < iuid && G_live[%d]) ==> %s)" % (q, q, registered_in("iuids", "uidFirst + %d" % q, n="iuids_n").replace("iuids.a[", "iuids[")) for q in range(LMAX)] +
+                    ["__CPROVER_decreases(nuid - iuid)"])
+    f = Fn("ACalcDbToDb::_expandInformation", D2D, r"^int ACalcDbToDb::_expandInformation\(int mode, const ELoc& locatorType\)( const)?\s*$",
+           csig="int _expandInformation(int mode, int locatorType)", contract=contract, loops={1: inv}, nloops=1,
+           rewrites=[(r"getDbin\(\) == nullptr \|\| getDbout\(\) == nullptr", "G_dbin_null || G_dbout_null", 1),
+                     (r"getDbout\(\)->isGrid\(\)", "G_out_grid", 2),
+                     (r"locatorType == ELoc::X", "locatorType == 0", 1),
+                     (r"getDbout\(\)->getNDim\(\)", "G_ndim", 1),
+                     (r"getDbout\(\)->getFromLocatorNumber\(locatorType\)", "G_ninfo_out", 1),
+                     (r"getDbin\(\)->getFromLocatorNumber\(locatorType\)", "G_ninfo_in", 1),
+                     (r"DbGrid \*dbgrid = dynamic_cast<DbGrid\*>\(getDbout\(\)\);", ";", 1),
+                     (r"NamingConvention\* namconv = NamingConvention::create\(\"Migrate\"\);", ";", 1),
+                     (r"namconv->setLocatorOutType\(locatorType\);", ";", 1),
+                     (r"delete namconv;", ";", 1),
+                     (r"migrateByLocator\(dbgrid, getDbin\(\), locatorType, 1,\s*\n\s*VectorDouble\(\), false, false, false, \*namconv\)", "VF_migrateByLocator()", 1),
+                     (r"getDbin\(\)->getUIDMaxNumber\(\)", "DBIN.next_uid", "opt"),
+                     (r"VectorInt iuids;", "int iuids[LMAX]; int iuids_n = 0;", "opt"),
+                     (r"getDbin\(\)->getColIdxByUID\(iuid\) >= 0", "VF_live(iuid)", "opt"),
+                     (r"iuids\.push_back\(iuid\);", '{ __CPROVER_assert(iuids_n < LMAX, "modelled list capacity"); iuids[iuids_n] = iuid; iuids_n = iuids_n + 1; }', "opt"),
+                     (r"_storeInVariableList\((\d), (\d), iuids\);", r"_storeInVariableList(\1, \2, iuids, iuids_n);", "opt"),
+                     (r"getDbin\(\)->deleteColumnsByLocator\(locatorType\);", "Db_deleteColumnsByLocator(1, locatorType);", 1)])
+    h = """
+void vf_harness(void)
+{
+  vf_havoc_inputs();
+  _expandInformation(W_mode, W_loc);
+  VF_REACH();
+}
+"""
+    return Unit("C19.expandInformation", [store_fn(with_loops=False), f], prelude=pre, harness=h, pre_inputs=PRE_IN, fallback_unwind=LMAX + 2,
+                inputs=D2D_INPUTS + [("int", "W_mode"), ("int", "W_loc"), ("bool", "G_dbin_null"), ("bool", "G_dbout_null"), ("bool", "G_out_grid"), ("int", "G_ndim"),
+                                     ("int", "G_ninfo_out"), ("int", "G_ninfo_in"), ("int", "G_nnew"), ("bool", "G_fail"), ("int", "G_first"), ("bool", "G_live", "LMAX")],
+                enforce="_expandInformation", replace=["_storeInVariableList"],
+                claim=("ACalcDbToDb::_expandInformation (external drift / non-stationary parameters migrated from the target grid into the input data base "
+                       "by every interpolator and simulation): every variable it leaves in dbin is registered as a temporary of dbin — the list that "
+                       "_postprocess and _rollback of every calculator are proved to clean — and nothing else is registered or unregistered"),
+                assumptions=["migrateByLocator through a contract: up to %d new identifiers of dbin, nothing alive after a failure (unit C19.rollback.CalcMigrate)" % LMAX,
+                             "callee _storeInVariableList through its proved contract"],
+                canaries=[{"fn": "ACalcDbToDb::_expandInformation", "rx": r"_storeInVariableList\(1, 2, iuids\);", "rp": "_storeInVariableList(2, 2, iuids);", "expect": r"_expandInformation\.postcondition"}])
+
+
+# ------------------------------------------------------------------------------------------------------------------
+# DGM centring: the coordinate roles of dbin are moved to temporary copies for the time of the calculation
+# ------------------------------------------------------------------------------------------------------------------
+NDMAX = 3
+
+
+def unit_dgm(cls, path):
+    """property: 'no changed roles' after a failure — _preprocess (real) moves the X roles of dbin to centred temporary copies
+    (_centerDataToGrid, real); whatever stage fails afterwards, _rollback (real, with the real _cleanVariableDb) must hand them back"""
+    pre = D2D_PRE.replace("void Db_deleteColumnByUID(DbH db, int iuid)\n{", "void Db_deleteColumnByUID(DbH db, int iuid)\n{\n  if (db == 1) { %s }"
+                          % " ".join("if (G_xrole[%d] == iuid) G_xrole[%d] = -1;" % (k, k) for k in range(NDMAX)), 1)
+    assert pre != D2D_PRE
+    pre += """
+#define TEST 1.234e30
+bool nondet_bool(void); int nondet_int(void);
+/* Db::getNamesByLocator(X) / Db::setLocators(names, X, 0): names are ghost identities of the columns (their identifiers) */
+static void VF_saveX(void) { G_saved_n = G_ndim; %s }
+static void VF_restoreX(void) { %s }
+static void VF_setX(int idim, int iuid) { __CPROVER_assert(0 <= idim && idim < NDMAX, "coordinate rank"); G_xrole[idim] = iuid; }
+static int VF_getX(int idim) { __CPROVER_assert(0 <= idim && idim < NDMAX, "coordinate rank"); return G_xrole[idim]; }
+static bool VF_base_preprocess(void) { return nondet_bool(); }
+""" % (" ".join("G_saved[%d] = G_xrole[%d];" % (k, k) for k in range(NDMAX)),
+       " ".join("if (%d < G_saved_n) G_xrole[%d] = G_saved[%d];" % (k, k, k) for k in range(NDMAX)))
+    common_rw = [(r"ELoc::UNKNOWN", "-1", "opt"), (r"ELoc::SIMU", "7", "opt"), (r"_getNVar\(\)", "G_nvar", None), (r"_getNDim\(\)", "G_ndim", "opt"),
+                 (r"getNbSimu\(\)", "G_nbsimu", "opt")]
+    center = Fn("ACalcInterpolator::_centerDataToGrid", "src/Calculators/ACalcInterpolator.cpp", r"^int ACalcInterpolator::_centerDataToGrid\(DbGrid\* dbgrid\)\s*$",
+                csig="int _centerDataToGrid(int dbgrid)",
+                rewrites=[(r"ELoc::UNKNOWN", "-1", 1), (r"_getNDim\(\)", "G_ndim", 2),
+                          (r"getDbin\(\)->getUIDByLocator\(ELoc::X, idim\)", "VF_getX(idim)", 1),
+                          (r"getDbin\(\)->duplicateColumnByUID\(iuid_in, iuid_out \+ idim\);", "(void) iuid_in;", 1),
+                          (r"getDbin\(\)->setLocatorByUID\(iuid_out \+ idim, ELoc::X, idim\);", "VF_setX(idim, iuid_out + idim);", 1),
+                          (r"DbH::centerPointToGrid\(getDbin\(\), dbgrid, 0\.\)", "nondet_int()", 1)])
+    prep_rw = [(r"ACalc(Interpolator|Simulation)::_preprocess\(\)", "VF_base_preprocess()", 1),
+               (r"if \(_matLC != nullptr\) _setNvar\(_matLC->getNRows\(\), true\);", ";", "opt"),
+               (r"int nvar = G_nvar;", "int nvar = G_nvar;", "opt"),
+               (r"DbGrid\s*\*\s*dbgrid = dynamic_cast<DbGrid\*>\(getDbout\(\)\);", "int dbgrid = G_out_grid ? 1 : 0;", 1),
+               (r"_nameCoord = getDbin\(\)->getNamesByLocator\(ELoc::X\);", "VF_saveX();", 1),
+               (r"getDbin\(\) != nullptr", "1", "opt"),
+               (r"(_addVariableDb\(\d, \d, 7, 0, nvar \* nbsimu)\)", r"\1, 0.)", "opt")]   # default argument valinit
+    prep = Fn("%s::_preprocess" % cls, path, r"^bool %s::_preprocess\(\)\s*$" % cls, csig="bool %s_preprocess(void)" % cls, rewrites=common_rw + prep_rw)
+    roll = Fn("%s::_rollback" % cls, path, r"^void %s::_rollback\(\)\s*$" % cls, csig="void %s_rollback(void)" % cls,
+              rewrites=[(r"!_nameCoord\.empty\(\)", "(G_saved_n != 0)", "opt"), (r"getDbin\(\)->setLocators\(_nameCoord, ELoc::X, 0\);", "VF_restoreX();", "opt")])
+    h = """
+void vf_harness(void)
+{
+  vf_havoc_inputs();
+  /* a fresh calculator on a dbin whose coordinates are %d..: nothing registered, no saved names */
+  __CPROVER_assume(L_PermIn.n == 0 && L_TempIn.n == 0 && L_PermOut.n == 0 && L_TempOut.n == 0 && DBIN.ndeleted == 0 && DBOUT.ndeleted == 0);
+  __CPROVER_assume(1 <= G_ndim && G_ndim <= NDMAX && 0 <= G_nvar && G_nvar <= 1 && G_nbsimu == 1 && 0 <= _nbNeigh && _nbNeigh <= 1);
+  __CPROVER_assume(NDMAX <= DBIN.next_uid && DBIN.next_uid < 100 && 0 <= DBOUT.next_uid && DBOUT.next_uid < 100);
+  G_saved_n = 0;
+  int x0[NDMAX];
+  for (int k = 0; k < NDMAX; k++) { x0[k] = k; G_xrole[k] = k; }
+  _flagDGM = _flagDGM ? 1 : 0;
+  bool ok = %s_preprocess();
+  bool moved = 0;
+  for (int k = 0; k < NDMAX; k++) if (k < G_ndim && G_xrole[k] != x0[k]) moved = 1;
+  if (_flagDGM && G_out_grid && ok) __CPROVER_assert(moved, "reachability: the DGM centring moved the coordinate roles to the temporary copies");
+  if (!ok || nondet_bool())
+  {
+    /* _preprocess, _run or _postprocess failed: ACalculator::run (unit C19.run) calls _rollback */
+    %s_rollback();
+    for (int k = 0; k < NDMAX; k++)
+      if (k < G_ndim) __CPROVER_assert(G_xrole[k] == x0[k], "after a failed calculation every coordinate role of dbin designates the column it designated before the call");
+    __CPROVER_assert(L_PermIn.n == 0 && L_TempIn.n == 0 && L_PermOut.n == 0 && L_TempOut.n == 0, "after a failed calculation nothing stays registered");
+    __CPROVER_assert(DBIN.ndeleted == DBIN.next_uid - vf_uid0_in, "after a failed calculation every variable created in dbin has been deleted");
+  }
+  VF_REACH();
+}
+""" % (0, cls, cls)
+    h = h.replace("  G_saved_n = 0;\n", "  G_saved_n = 0;\n  int vf_uid0_in = DBIN.next_uid;\n")
+    extra = [("bool", "_flagDGM"), ("bool", "_flagEst"), ("bool", "_flagStd"), ("bool", "_flagVarZ"), ("bool", "_flagNeighOnly"), ("int", "_iechSingleTarget"),
+             ("int", "_iptrEst"), ("int", "_iptrStd"), ("int", "_iptrVarZ"), ("int", "_iptrNeigh"), ("int", "_nbNeigh"), ("int", "_iattOut"),
+             ("bool", "_flagAllocationAlreadyDone"), ("bool", "G_out_grid"), ("int", "G_ndim"), ("int", "G_nvar"), ("int", "G_nbsimu"),
+             ("int", "G_saved_n"), ("int", "G_saved", "NDMAX"), ("int", "G_xrole", "NDMAX")]
+    addv = unit_addvar().fns[-1]
+    import copy
+    addv = copy.copy(addv); addv.contract = ""
+    st = copy.copy(store_fn(with_loops=False)); st.contract = ""
+    cl = copy.copy(clean_fn(with_loops=False)); cl.contract = ""
+    seq = "".join("  if (%d < number) v[%d] = ideb + %d;\n" % (k, k, k) for k in range(LMAX))
+    pre += "static void VF_sequence(int* v, int number, int ideb) {\n%s}\n" % seq
+    return Unit("C19.dgm_roles.%s" % cls, [st, addv, cl, center, prep, roll], prelude=pre, harness=h, pre_inputs=PRE_IN + "#define NDMAX %d\n" % NDMAX, inputs=D2D_INPUTS + extra,
+                unwind=LMAX + 2, checks=["--bounds-check", "--pointer-check"],
+                claim=("%s with the DGM option (real _preprocess, _centerDataToGrid, _rollback, _cleanVariableDb, _addVariableDb, _storeInVariableList, "
+                       "executed in sequence): whatever stage fails after the coordinate roles of the input data base were moved to the centred temporary "
+                       "copies, after _rollback every coordinate role designates the original column again and every created variable is deleted" % cls),
+                assumptions=["Db::deleteColumnByUID drops the roles of the deleted column (proved under C07); names = ghost identities of columns",
+                             "ACalcInterpolator::_preprocess / DbH::centerPointToGrid: arbitrary outcome"],
+                bounded="at most %d space dimensions, 1 variable, 1 simulation, lists of at most %d identifiers; unwind %d with unwinding assertions" % (NDMAX, LMAX, LMAX + 2),
+                canaries=[{"fn": "%s::_rollback" % cls, "rx": r"VF_restoreX\(\);|getDbin\(\)->setLocators\(_nameCoord, ELoc::X, 0\);", "rp": ";", "expect": r"assertion"}])
+
+
+# ------------------------------------------------------------------------------------------------------------------
+# ACalcDbVarCreator (single Db) and its only calculator, CalcAnamTransform
+# ------------------------------------------------------------------------------------------------------------------
+VC = "src/Calculators/ACalcDbVarCreator.cpp"
+AT = "src/Anamorphosis/CalcAnamTransform.cpp"
+
+
+def unit_anamtransform():
+    """property: whatever option is chosen, every variable CalcAnamTransform::_preprocess creates is deleted by _rollback
+    (real _preprocess, _rollback and the real bookkeeping of ACalcDbVarCreator, executed in sequence)"""
+    pre = ivec_ops() + """
+typedef int DbH;
+#define _db 1
+#define TEST 1.234e30
+#define _listVariablePermDb L_PermIn
+#define _listVariableTempDb L_TempIn
+bool nondet_bool(void);
+/* Db::addColumnsByConstant as seen by a calculator (identifier part proved under C07): first of 'number' fresh consecutive identifiers, or -1 */
+int Db_addColumnsByConstant(DbH db, int number)
+{
+  if (number <= 0 || DBIN.add_fails) return -1;
+  int first = DBIN.next_uid; DBIN.next_uid = first + number; return first;
+}
+void Db_deleteColumnByUID(DbH db, int iuid)
+{
+  __CPROVER_assert(0 <= DBIN.ndeleted && DBIN.ndeleted < DMAX, "ghost log capacity"); DBIN.deleted[DBIN.ndeleted] = iuid; DBIN.ndeleted = DBIN.ndeleted + 1;
+}
+static void VF_sequence(int* v, int number, int ideb) {
+%s}
+static bool VF_base_preprocess(void) { return nondet_bool(); }
+""" % "".join("  if (%d < number) v[%d] = ideb + %d;\n" % (k, k, k) for k in range(LMAX))
+    store = Fn("ACalcDbVarCreator::_storeInVariableList", VC, r"^void ACalcDbVarCreator::_storeInVariableList\(int status, const VectorInt& iuids\)\s*$",
+               csig="void _storeInVariableList(int status, const int* iuids, int iuids_size)",
+               rewrites=[(r"\(int\) iuids\.size\(\)", "iuids_size", 1), (r"(_listVariable\w+)\.push_back\(", r"ivec_push_back(&\1, ", None)])
+    addv = Fn("ACalcDbVarCreator::_addVariableDb", VC,
+              r"^int ACalcDbVarCreator::_addVariableDb\(int status,\s*\n\s*const ELoc& locatorType,\s*\n\s*int locatorIndex,\s*\n\s*int number,\s*\n\s*double valinit\)\s*$",
+              csig="int _addVariableDb(int status, int locatorType, int locatorIndex, int number, double valinit)",
+              rewrites=[(r"_db == nullptr", "_db == 0", 1),
+                        (r"_db->addColumnsByConstant\(number, valinit, String\(\), locatorType, locatorIndex\)", "Db_addColumnsByConstant(_db, number)", 1),
+                        (r"VectorInt iuids = VH::sequence\(number, iuid\);", "int iuids[LMAX]; VF_sequence(iuids, number, iuid);", 1),
+                        (r"_storeInVariableList\(status, iuids\)", "_storeInVariableList(status, iuids, number)", 1)])
+    clean = Fn("ACalcDbVarCreator::_cleanVariableDb", VC, r"^void ACalcDbVarCreator::_cleanVariableDb\(int status\)\s*$", csig="void _cleanVariableDb(int status)",
+               rewrites=[(r"!(_listVariable\w+)\.empty\(\)", r"(\1.n != 0)", "opt"), (r"\(int\) (_listVariable\w+)\.size\(\)", r"\1.n", "opt"),
+                         (r"_db->(\w+)\(", r"Db_\1(_db, ", None), (r"(_listVariable\w+)\[(\w+)\]", r"\1.a[\2]", "opt"),
+                         (r"(_listVariable\w+)\.clear\(\)", r"ivec_clear(&\1)", None)])
+    prep = Fn("CalcAnamTransform::_preprocess", AT, r"^bool CalcAnamTransform::_preprocess\(\)\s*$", csig="bool CalcAnamTransform_preprocess(void)",
+              rewrites=[(r"ACalcDbVarCreator::_preprocess\(\)", "VF_base_preprocess()", 1),
+                        (r"_getNVar\(\)", "G_nvar", None), (r"_getNfact\(\)", "G_nfact", None), (r"_getNSel\(\)", "G_nsel", None),
+                        # a creation that by-passes the bookkeeping is still a creation in the Db
+                        (r"getDb\(\)->addColumnsByConstant\((\w+)(, TEST)?\)", r"Db_addColumnsByConstant(_db, \1)", "opt"),
+                        (r"_addVariableDb\(1, ELoc::UNKNOWN, 0, (\w+)\)", r"_addVariableDb(1, -1, 0, \1, 0.)", "opt"),
+                        (r"_addVariableDb\(1, ELoc::UNKNOWN, 0, (\w+), TEST\)", r"_addVariableDb(1, -1, 0, \1, TEST)", "opt")])
+    roll = Fn("CalcAnamTransform::_rollback", AT, r"^void CalcAnamTransform::_rollback\(\)\s*$", csig="void CalcAnamTransform_rollback(void)")
+    h = """
+void vf_harness(void)
+{
+  vf_havoc_inputs();
+  /* a fresh calculator: nothing registered */
+  __CPROVER_assume(L_PermIn.n == 0 && L_TempIn.n == 0 && DBIN.ndeleted == 0 && 0 <= DBIN.next_uid && DBIN.next_uid < 100);
+  __CPROVER_assume(G_nvar <= LMAX && G_nfact <= LMAX && G_nsel <= LMAX);
+  _flagVars = _flagVars ? 1 : 0; _flagToFactors = _flagToFactors ? 1 : 0; _flagDisjKrig = _flagDisjKrig ? 1 : 0; _flagCondExp = _flagCondExp ? 1 : 0; _flagUniCond = _flagUniCond ? 1 : 0;
+  int uid0 = DBIN.next_uid;
+  bool ok = CalcAnamTransform_preprocess();
+  if (ok && (_flagVars || _flagToFactors || _flagDisjKrig || _flagCondExp || _flagUniCond))
+    __CPROVER_assert(DBIN.next_uid > uid0 || DBIN.add_fails || G_nvar <= 0 || G_nfact <= 0 || G_nsel <= 0, "reachability: a successful _preprocess created the result variables");
+  if (!ok || nondet_bool())
+  {
+    /* _preprocess, _run or _postprocess failed: ACalculator::run (unit C19.run) calls _rollback */
+    CalcAnamTransform_rollback();
+    __CPROVER_assert(DBIN.ndeleted == DBIN.next_uid - uid0, "after a failed calculation as many variables were deleted as were created");
+    for (int k = 0; k < LMAX; k++)
+      if (uid0 + k < DBIN.next_uid) __CPROVER_assert(DBIN.deleted[k] == uid0 + k, "after a failed calculation every variable created in the data base has been deleted");
+    __CPROVER_assert(L_PermIn.n == 0, "after a failed calculation nothing stays registered as a result");
+  }
+  VF_REACH();
+}
+"""
+    extra = [("bool", "_flagVars"), ("bool", "_flagToFactors"), ("bool", "_flagDisjKrig"), ("bool", "_flagCondExp"), ("bool", "_flagUniCond"),
+             ("int", "_iattVar"), ("int", "_iattFac"), ("int", "_iattSel"), ("int", "G_nvar"), ("int", "G_nfact"), ("int", "G_nsel")]
+    return Unit("C19.CalcAnamTransform.failure", [store, addv, clean, prep, roll], prelude=pre, harness=h, pre_inputs=PRE_IN,
+                inputs=[("ivec", "L_PermIn"), ("ivec", "L_TempIn"), ("Db", "DBIN")] + extra, unwind=LMAX + 2, checks=["--bounds-check", "--pointer-check"],
+                claim=("CalcAnamTransform (Gaussian transforms, factors, disjunctive kriging, conditional expectation, uniform conditioning): real _preprocess, "
+                       "_rollback and the real bookkeeping of ACalcDbVarCreator (_addVariableDb, _storeInVariableList, _cleanVariableDb) in sequence — whatever "
+                       "option is set and whichever stage fails, _rollback deletes every variable that _preprocess created in the data base"),
+                assumptions=["Db::addColumnsByConstant contract (fresh consecutive identifiers or -1)", "ACalcDbVarCreator::_preprocess: arbitrary outcome"],
+                bounded="at most %d result variables, lists of at most %d identifiers; unwind %d with unwinding assertions" % (LMAX, LMAX, LMAX + 2),
+                canaries=[{"fn": "CalcAnamTransform::_rollback", "rx": r"_cleanVariableDb\(1\);", "rp": ";", "expect": r"assertion"}])
+
+
 ROLLBACKS = [
     ("CalcKriging", "src/Estimation/CalcKriging.cpp"), ("CalcMigrate", "src/Calculators/CalcMigrate.cpp"),
     ("CalcStatistics", "src/Calculators/CalcStatistics.cpp"), ("CalcGridToGrid", "src/Calculators/CalcGridToGrid.cpp"),
@@ -349,7 +610,22 @@ def registered_statuses(path):
         st.add(int(a) if a in ("1", "2") else 2)          # a non-literal status may be 2
     if re.search(r"(?<![:\w])_centerDataToGrid\(", src):
         st.add(2)
+    # ACalcInterpolator::_preprocess (reached directly or through ACalcSimulation::_preprocess) calls _expandInformation, which registers (dbin, 2)
+    if re.search(r"ACalc(Interpolator|Simulation)::_preprocess\(|(?<![:\w])_expandInformation\(", src):
+        st.add(2)
     return st
+
+
+def moves_roles(path):
+    """static fact re-derived on every run: does this calculator move the coordinate roles of dbin (DGM centring)?"""
+    import os, re
+    from tools.vf import REPO
+    src = open(os.path.join(REPO, path), encoding="utf-8", errors="replace").read()
+    moves = re.search(r"(?<![:\w])_centerDataToGrid\(", src) is not None
+    # is the centring guarded by the member _flagDGM (CalcKriging, CalcSimuTurningBands) or by a property of the model (CalcKrigingFactors)?
+    guarded = re.search(r"if \(_flagDGM\)\s*\{[^}]*_centerDataToGrid\(", src, re.S) is not None
+    moves_z = re.search(r"getDbin\(\)->clearLocators\(ELoc::Z\)", src) is not None
+    return moves, guarded, moves_z
 
 
 def unit_rollback(cls, path):
@@ -369,8 +645,17 @@ def unit_rollback(cls, path):
     if not temp_possible:
         # this calculator never registers a temporary variable: the two temporary lists are empty whenever _rollback runs
         pre.append("__CPROVER_requires(L_TempIn.n == 0 && L_TempOut.n == 0)")
-    contract = "\n".join(pre + ["__CPROVER_assigns(L_PermIn, L_TempIn, L_PermOut, L_TempOut, DBIN, DBOUT, g_deleted_by_colidx_in, g_deleted_by_colidx_out)"] + ens)
-    f = Fn("%s::_rollback" % cls, path, r"^void %s::_rollback\(\)\s*$" % cls, csig="void %s_rollback(void)" % cls, contract=contract)
+    # calculators that move the coordinate roles of dbin (DGM centring) hand them back: call of Db::setLocators(_nameCoord, X, 0) counted in a ghost
+    moves, guarded, moves_z = moves_roles(path)
+    cond = "(VF_moves_roles && %sG_saved_n != 0)" % ("_flagDGM && " if guarded else "")
+    ens.append("__CPROVER_ensures(%s ==> g_roles_restored == __CPROVER_old(g_roles_restored) + 1)" % cond)
+    ens.append("__CPROVER_ensures((!VF_moves_roles) ==> g_roles_restored == __CPROVER_old(g_roles_restored))")
+    # calculators that change the Z roles of dbin (one factor at a time) hand them back: Db::setLocatorsByUID(_iuidFactors, Z, 0) counted in a ghost
+    ens.append("__CPROVER_ensures(g_zroles_restored == __CPROVER_old(g_zroles_restored) + %d)" % (1 if moves_z else 0))
+    contract = "\n".join(pre + ["__CPROVER_assigns(L_PermIn, L_TempIn, L_PermOut, L_TempOut, DBIN, DBOUT, g_deleted_by_colidx_in, g_deleted_by_colidx_out, g_roles_restored, g_zroles_restored)"] + ens)
+    f = Fn("%s::_rollback" % cls, path, r"^void %s::_rollback\(\)\s*$" % cls, csig="void %s_rollback(void)" % cls, contract=contract,
+           rewrites=[(r"!_nameCoord\.empty\(\)", "(G_saved_n != 0)", "opt"), (r"getDbin\(\)->setLocators\(_nameCoord, ELoc::X, 0\);", "g_roles_restored++;", "opt"),
+                     (r"getDbin\(\) != nullptr", "1", "opt"), (r"getDbin\(\)->setLocatorsByUID\(_iuidFactors, ELoc::Z, 0\);", "g_zroles_restored++;", "opt")])
     h = """
 void vf_harness(void)
 {
@@ -391,33 +676,36 @@ static void vf_native(void)
   __CPROVER_assert(DBIN.ndeleted + DBOUT.ndeleted == before, "every variable created by the failed calculation has been deleted");
 }
 """ % cls
-    return Unit("C19.rollback.%s" % cls, [clean_fn(with_loops=False), f], prelude=D2D_PRE, harness=h, pre_inputs=PRE_IN, native=native,
-                inputs=D2D_INPUTS, enforce="%s_rollback" % cls, replace=["_cleanVariableDb"],
+    return Unit("C19.rollback.%s" % cls, [clean_fn(with_loops=False), f], prelude=D2D_PRE + "#define VF_moves_roles %d\n" % (1 if moves else 0), harness=h, pre_inputs=PRE_IN, native=native,
+                inputs=D2D_INPUTS + [("bool", "_flagDGM"), ("int", "G_saved_n"), ("unsigned", "g_roles_restored"), ("unsigned", "g_zroles_restored")], enforce="%s_rollback" % cls, replace=["_cleanVariableDb"],
                 claim=("%s::_rollback: after a failed calculation every variable the calculator created in either Db — permanent or temporary — "
                        "is deleted and no identifier stays registered (callee _cleanVariableDb through its proved contract)" % cls),
                 assumptions=["lists hold at most %d identifiers" % LMAX,
                              "statuses this calculator registers, re-derived from its source on this run: %s%s" % (
-                                 sorted(sts), "" if temp_possible else " -> temporary lists assumed empty at rollback")],
+                                 sorted(sts), "" if temp_possible else " -> temporary lists assumed empty at rollback"),
+                             "moves the coordinate roles of dbin (calls _centerDataToGrid) / guarded by _flagDGM / changes the Z roles of dbin, re-derived on this run: %s / %s / %s" % (moves, guarded, moves_z)],
                 canaries=[{"fn": "%s::_rollback" % cls, "rx": r"_cleanVariableDb\(1\);", "rp": ";", "expect": r"_rollback\.postcondition"}])
 
 
 def units(tier):
-    return [unit_run(), unit_store(), unit_addvar(), unit_clean()] + [unit_rollback(c, p) for c, p in ROLLBACKS]
+    return [unit_run(), unit_store(), unit_addvar(), unit_clean(), unit_expand()] + [unit_rollback(c, p) for c, p in ROLLBACKS] + [unit_dgm("CalcKriging", "src/Estimation/CalcKriging.cpp"), unit_dgm("CalcSimuTurningBands", "src/Simulation/CalcSimuTurningBands.cpp"), unit_anamtransform()]
 
 
 META = {
-    "level": "proof",
+    "level": "other",
     "explanation": ("Failure-point quantifier handled symbolically: every stage returns a nondeterministic outcome (success, failure, either "
-                    "exception type) so all failure points are covered at once."),
+                    "exception type) so all failure points are covered at once. The skeleton, bookkeeping, _expandInformation and the 14 rollback units "
+                    "are unbounded proofs; the three sequence units (DGM roles x2, CalcAnamTransform) are bounded stand-ins, hence level 'other'."),
     "trusted_base": ["CBMC 6.11", "exception model (structured exits)", "std::vector model"],
     "assumptions": [],
-    "not_covered": ["values written by _run itself into pre-existing columns", "role changes of the DGM centring (CalcKriging/CalcSimuTurningBands _preprocess) — observed by reading, no contract yet",
-                    "NamingConvention::setNamesAndLocators (string code)"],
+    "not_covered": ["values written by _run itself into pre-existing columns", "success path of the role hand-back in _postprocess (only the failure path is under contract)",
+                    "NamingConvention::setNamesAndLocators (string code)", "CalcSimuRefine, CalcSimuPost internals"],
 }
 MANIFEST = {
-    "category": "proof",
+    "category": "other",
     "text": ("Contracts on the calculator skeleton: run() staging/rollback protocol for all failure points, registration and cleaning of created "
-             "variables, rollback completeness of every calculator; loop-free or loops closed by invariants."),
+             "variables (incl. those migrated into dbin), rollback completeness and role hand-back of every calculator (proved: loop-free or loops closed by "
+             "invariants); bounded sequence units preprocess->rollback for the DGM role moves and for CalcAnamTransform."),
     "note": "Trusted: CBMC, exception model, std::vector model, Db add/delete contracts (identifier part proved under C07).",
     "design_ref": "DESIGN.md 3 C19",
 }
